@@ -952,6 +952,30 @@ fn native_spec() {
             Ok(m) if m.subcommand_matches("run").and_then(|s| s.get_one::<String>("v").cloned()).as_deref() == Some("val") => {}
             other => println!("SPEC-REPLAY MISMATCH target=propagate_globals case=subcommand redefines the global's id: {:?}", other.map(|_| ()).map_err(|e| e.kind())),
         }
+    } else if target == "option_sort_key" {
+        // C12: options whose shorts differ only by case and share a display order are both listed, lower case first
+        for (a, b, ll, lu) in [('c', 'C', "zzlower-c", "zzupper-c"), ('v', 'V', "zzlower-v", "zzupper-v"), ('z', 'Z', "zzlower-z", "zzupper-z")] {
+            for order in [None, Some(3usize)] {
+                let mut x = Arg::new("lower").short(a).long(ll).action(ArgAction::SetTrue).help("lower help");
+                let mut y = Arg::new("upper").short(b).long(lu).action(ArgAction::SetTrue).help("upper help");
+                let mut cmd = Command::new("p").disable_help_flag(true).disable_version_flag(true);
+                match order {
+                    Some(n) => {
+                        x = x.display_order(n);
+                        y = y.display_order(n);
+                    }
+                    None => cmd = cmd.next_display_order(None),
+                }
+                let mut cmd = cmd.arg(y).arg(x);
+                for long in [false, true] {
+                    let h = if long { cmd.render_long_help().to_string() } else { cmd.render_help().to_string() };
+                    let (pl, pu) = (h.find(&format!("--{ll}")), h.find(&format!("--{lu}")));
+                    if pl.is_none() || pu.is_none() || pl > pu {
+                        println!("SPEC-REPLAY MISMATCH target=option_sort_key case=-{a}/-{b} display_order={order:?} long_help={long}: lower listed at {pl:?}, upper at {pu:?}");
+                    }
+                }
+            }
+        }
     } else if target == "match_arg_error" {
         // C10: the error kind names a rule the input really breaks
         for acws in [false, true] {
